@@ -26,7 +26,7 @@ from gridrv.oracles import datafiles
 PROP = "C17"
 TITLE = "Closed-form Coulomb potentials of Gaussian densities are exact everywhere"
 REQUIRED_HOOKS = ["coulomb.coulomb_gaussian_s", "coulomb.coulomb_gaussian_p", "coulomb.coulomb_potential", "coulomb.load_atomic_gaussian_params", "coulomb.load_atomic_gaussian_params:raised"]
-REQUIRED_FAMILIES = ["pinned-p-witness", "pinned-multicentre-p-witness", "single-grid", "single-sweep", "quadrature", "multi-centre", "atomic-core", "load", "load-reject", "load-history"]
+REQUIRED_FAMILIES = ["pinned-p-witness", "pinned-multicentre-p-witness", "single-grid", "single-sweep", "quadrature", "multi-centre", "atomic-core", "load", "load-reject", "load-history", "buffer-reuse"]
 BUDGET = {"quick": 600, "thorough": 3600}  # idle 16-core expectation: ~8 s / ~75 s per worker; generous because the machine may be heavily shared
 RULE = (
     "Post-conditions on coulomb_gaussian_s/p, coulomb_potential and load_atomic_gaussian_params evaluate every call against an "
@@ -39,7 +39,13 @@ RULE = (
     "1-30 s and 0-30 p functions, random signs, duplicate centres, points on centres, within 1e-13..1e-10 of centres and up to 1e8 away, "
     "normalized on/off; atomic-core = every shipped element through load + coulomb_potential as the robust Poisson solver uses them; "
     "load/load-reject/load-history = every element of the JSON by symbol (all case variants) and number (int, np.integer), all 113 "
-    "unavailable atomic numbers, malformed requests, and seeded call sequences with in-place edits of returned arrays. One case = one "
+    "unavailable atomic numbers, malformed requests, and seeded call sequences with in-place edits of returned arrays; buffer-reuse = "
+    "seeded histories of 4-12 calls of coulomb_potential / coulomb_gaussian_s / coulomb_gaussian_p in which the SAME argument array objects "
+    "(points, radii, centres, coefficients, exponents) are passed again after in-place translation, scaling, refilling or single-entry edits, "
+    "interleaved with other calls: each result must be bit-identical to the result for fresh copies of the current values, must not share "
+    "memory with arguments or earlier results, and earlier results must stay unchanged. Argument forms: float64/float32/integer-dtype "
+    "(int16..uint64, incl. radii >= 2^32) arrays, Python int lists, N-D radii (points x centres distance matrices with entries on the "
+    "centre), read-only, Fortran-ordered and strided views. One case = one "
     "parameter set (non-trivial when at least one oracle evaluation was made on a real library result)."
 )
 ASSUMPTIONS = [
@@ -71,6 +77,8 @@ C_MULTI = "multi-centre-potential-of-documented-density"
 C_LOAD = "params-load-as-shipped"
 C_REPEAT = "params-repeatable"
 C_REJECT = "params-reject-as-documented"
+C_FRESH = "reused-buffer-equals-fresh-copy"
+C_STABLE = "earlier-results-unchanged"
 
 SIG_KNOWN_P = "Vcode-Vtrue=2sqrt(a/pi)exp(-a r^2)"
 SIG_KNOWN_MULTI = "Vcode-Vtrue=sum_p c x 2sqrt(a/pi)exp(-a r^2)"
@@ -79,6 +87,8 @@ TINY_ABS = 2e-323  # 4 spacings of the subnormal range: results below 2.2e-308 (
 SWITCH = 1e-12  # documented in the module ("Distance threshold below which the r->0 analytical limit is used")
 HOSTILE_R = [0.0, 5e-324, 1e-300, 1e-100, 1e-20, 1e-14, 1e-13, 0.5e-12, float(np.nextafter(SWITCH, 0)), SWITCH, float(np.nextafter(SWITCH, 1)), 2e-12, 1e-11, 1e-10, 1e-9, 1e-8, 1e-7, 1e-6, 1e-5, 1e-4, 1e-3, 1e-2, 0.1, 0.5, 1.0, 2.0, 5.0, 10.0, 1e2, 1e3, 1e4, 1e5, 1e6, 1e12, 1e150, 1e300, float("inf")]
 CONT_R = [0.0, 0.5e-12, 2e-12, 1e-10]
+INT_R_SMALL = [0, 1, 2, 3, 7, 10, 100, 12345, 2**31 - 1]
+INT_R_BIG = INT_R_SMALL + [2**31, 2**32, 3037000499, 3037000500, 4_000_000_000, 10**12, 10**15, 2**62]
 GRID_ALPHAS = [1e-4, 1e-3, 1e-2, 0.1, 1.0, 10.0, 1e2, 1e3, 1e4, 1e5, 1e6, 1, 2, 3]
 
 # own periodic table (independent of grid.utils.sym2num)
@@ -121,6 +131,8 @@ def cases(tier, seed):
     out.append(("load-reject", {}, 1.0))
     for k in range(4 if q else 60):
         out.append(("load-history", {"k": k}, 1.0))
+    for k in range(100 if q else 1800):
+        out.append(("buffer-reuse", {"target": ["potential", "potential", "potential", "s", "p"][k % 5], "k": k}, 3.0))
     out.append(("extreme-alpha-observation", {}, 1.0))
     return out
 
@@ -404,6 +416,182 @@ def _alpha_form(rng, a):
     return [float(a), np.float64(a), np.array(float(a)), float(a)][k]
 
 
+def _int_forms(rng=None):
+    """Integer-typed radii (decided by the post-condition against their float values)."""
+    forms = [("int32", np.array(INT_R_SMALL, dtype=np.int32)), ("int64", np.array(INT_R_BIG, dtype=np.int64)), ("uint64", np.array(INT_R_BIG, dtype=np.uint64)),
+             ("int-list", list(INT_R_BIG)), ("int64-2d", np.array(INT_R_BIG[:16], dtype=np.int64).reshape(4, 4)), ("uint8", np.array([0, 1, 2, 255], dtype=np.uint8)),
+             ("int16", np.array([0, 3, 32767], dtype=np.int16)), ("bool", np.array([False, True]))]
+    if rng is not None:
+        hi = 10 ** int(rng.integers(1, 17))
+        forms.append(("int64-random", rng.integers(0, hi, int(rng.integers(1, 30)))))
+        forms.append(("int-list-random", [int(v) for v in rng.integers(0, hi, int(rng.integers(1, 10)))]))
+    return forms
+
+
+def _fset(rng, k, box):
+    cen = rng.uniform(-box, box, (k, 3))
+    if k > 2 and rng.random() < 0.5:  # several functions on one centre (atomic core style)
+        cen[k // 2 :] = cen[0]
+    if k > 1 and rng.random() < 0.2:
+        cen[-1] = rng.uniform(-1e3, 1e3, 3)
+    co = rng.lognormal(0, 2, k) * rng.choice([-1.0, 1.0], k)
+    if k > 3 and rng.random() < 0.3:
+        co[int(rng.integers(0, k))] = 0.0
+    al = 10.0 ** rng.uniform(-4, 6, k)
+    return cen, co, al
+
+
+class _History:
+    """Results handed out earlier: must not share memory with arguments / each other and must never change."""
+
+    def __init__(self, ctx, subject):
+        self.ctx, self.subject, self.kept = ctx, subject, []
+
+    def record(self, res, inputs, step, op):
+        res = np.asarray(res)
+        sh_in = [n for n, x in inputs if isinstance(x, np.ndarray) and x.size and res.size and np.shares_memory(res, x)]
+        sh_prev = [st for o, _, st in self.kept if res.size and np.shares_memory(res, o)]
+        self.ctx.check(C_STABLE, self.subject, not sh_in and not sh_prev, sig="result-shares-memory-with-" + ("argument" if sh_in else "earlier-result"), detail={"step": step, "after": op, "arguments": sh_in, "earlier_steps": sh_prev})
+        changed = [st for o, c, st in self.kept if o.tobytes() != c.tobytes()]
+        self.ctx.check(C_STABLE, self.subject, not changed, sig="earlier-result-changed", detail={"step": step, "after": op, "changed_results_of_steps": changed})
+        self.kept.append((res, res.copy(), step))
+
+
+def _same_bits(ctx, subject, v, vf, step, op):
+    v, vf = np.asarray(v), np.asarray(vf)
+    ok = v.shape == vf.shape and v.dtype == vf.dtype and v.tobytes() == vf.tobytes()
+    d = None
+    if not ok and v.shape == vf.shape:
+        with np.errstate(invalid="ignore"):
+            d = float(np.max(np.abs(v.astype(float) - vf.astype(float)))) if v.size else 0.0
+    ctx.check(C_FRESH, subject, ok, sig="differs-from-fresh-copy:after-" + op, detail={"step": step, "max_abs_diff": d})
+
+
+def _buffer_reuse_potential(ctx, gc, rng):
+    nrm = bool(rng.integers(0, 2))
+    with_p = bool(rng.integers(0, 2))
+    sizes = [1, 1, 2, 3, 4, 6, 10, 20, 30]
+    ks = int(rng.choice(sizes))
+    kp = int(rng.choice(sizes)) if with_p else 0
+    box = float(10.0 ** rng.uniform(-0.5, 1.0))
+    cs, cos, als = _fset(rng, ks, box)
+    cp, cop, alp = _fset(rng, kp, box)
+    n = int(rng.integers(1, 40))
+    pts = rng.uniform(-box, box, (n, 3))
+    if rng.random() < 0.5:
+        pts[0] = cs[0]
+    subject = "coulomb_potential:buffer-reuse"
+    hist = _History(ctx, subject)
+    ctx.case_note("n_s", ks)
+    ctx.case_note("n_p", kp)
+    ctx.case_note("n_points", n)
+
+    def args(copy):
+        a = [pts, cs, cos, als] + ([cp, cop, alp] if with_p else [])
+        return [x.copy(order="K") for x in a] if copy else a
+
+    ops = ["none", "translate-points", "scale-points", "refill-points", "move-one-point", "points-onto-centres", "shift-centres", "refill-alphas", "scale-coeffs", "swap-centre-rows"]
+    done = []
+    for step in range(int(rng.integers(4, 13))):
+        op = "first-call" if step == 0 else str(rng.choice(ops))
+        if op == "translate-points":
+            pts += rng.uniform(-1, 1, 3) * box
+        elif op == "scale-points":
+            pts *= float(rng.choice([-1.0, 0.5, 2.0, 1.0 + 1e-3, 10.0]))
+        elif op == "refill-points":
+            pts[:] = rng.uniform(-box, box, pts.shape)
+        elif op == "move-one-point":
+            pts[int(rng.integers(0, n))] = cs[int(rng.integers(0, ks))] + float(rng.choice([0.0, 5e-13, 1e-3])) * np.array([1.0, 0.0, 0.0])
+        elif op == "points-onto-centres":
+            m = min(n, ks)
+            pts[:m] = cs[:m]
+        elif op == "shift-centres":
+            cs += rng.uniform(-0.3, 0.3, 3)
+            if with_p and rng.random() < 0.5:
+                cp[0] = cs[0]
+        elif op == "refill-alphas":
+            als[:] = 10.0 ** rng.uniform(-4, 6, ks)
+            if with_p:
+                alp *= 3.0
+        elif op == "scale-coeffs":
+            cos *= -0.5
+            if with_p:
+                cop[:] = cop[::-1].copy()
+        elif op == "swap-centre-rows":
+            cs[[0, -1]] = cs[[-1, 0]]
+        done.append(op)
+        # something else happens in between: other points on the same centres, the same points on other centres, single functions, loads
+        for _ in range(int(rng.integers(0, 3))):
+            what = int(rng.integers(0, 4))
+            if what == 0:
+                gc.coulomb_potential(rng.uniform(-box, box, (int(rng.integers(1, 10)), 3)), cs, cos, als, normalized=nrm)
+            elif what == 1:
+                j = int(rng.integers(0, ks))
+                gc.coulomb_potential(pts, cs[j : j + 1] + 0.25, np.array([1.0]), np.array([0.7]), normalized=nrm)
+            elif what == 2:
+                getattr(gc, "coulomb_gaussian_" + "sp"[int(rng.integers(0, 2))])(_dist(pts, cs[0]), float(als[0]), nrm)
+            else:
+                gc.load_atomic_gaussian_params(int(rng.choice([1, 6, 7, 8, 17])))
+        fresh_first = rng.random() < 0.25
+        with ctx.guard(C_FRESH, subject):
+            if fresh_first:
+                vf = gc.coulomb_potential(*args(True), normalized=nrm)
+            v = gc.coulomb_potential(*args(False), normalized=nrm)
+            if not fresh_first:
+                vf = gc.coulomb_potential(*args(True), normalized=nrm)
+            _same_bits(ctx, subject, v, vf, step, op)
+            hist.record(v, list(zip(["points", "centers_s", "coeffs_s", "alphas_s", "centers_p", "coeffs_p", "alphas_p"], args(False))), step, op)
+    ctx.case_note("history", done)
+
+
+def _buffer_reuse_single(ctx, gc, rng, kind):
+    nrm = bool(rng.integers(0, 2))
+    f = getattr(gc, f"coulomb_gaussian_{kind}")
+    other = getattr(gc, "coulomb_gaussian_" + ("p" if kind == "s" else "s"))
+    a = float(10.0 ** rng.uniform(-4, 6))
+    alpha = np.array(a) if rng.random() < 0.5 else a  # a 0-d array is a buffer too
+    L = 1.0 / math.sqrt(a)
+    shape = (int(rng.integers(1, 60)),) if rng.random() < 0.5 else (int(rng.integers(1, 12)), int(rng.integers(2, 8)))
+    r = (10.0 ** rng.uniform(-3, 1, shape)) * L
+    subject = f"coulomb_gaussian_{kind}:buffer-reuse"
+    hist = _History(ctx, subject)
+    ops = ["none", "scale", "shift", "refill", "zero-some", "below-switch-some", "alpha-in-place"]
+    done = []
+    for step in range(int(rng.integers(4, 13))):
+        op = "first-call" if step == 0 else str(rng.choice(ops))
+        if op == "scale":
+            r *= float(rng.choice([0.5, 2.0, 1e-3, 1e3]))
+        elif op == "shift":
+            r += float(rng.uniform(0, 2)) * L
+        elif op == "refill":
+            r[...] = (10.0 ** rng.uniform(-6, 1.5, shape)) * L
+        elif op == "zero-some":
+            r.flat[rng.integers(0, r.size, 2)] = 0.0
+        elif op == "below-switch-some":
+            r.flat[rng.integers(0, r.size, 2)] = [0.5e-12, float(np.nextafter(SWITCH, 0))]
+        elif op == "alpha-in-place":
+            a = float(10.0 ** rng.uniform(-4, 6))
+            if isinstance(alpha, np.ndarray):
+                alpha[...] = a
+            else:
+                alpha = a
+        done.append(op)
+        for _ in range(int(rng.integers(0, 3))):
+            what = int(rng.integers(0, 3))
+            if what == 0:
+                other(r, alpha, nrm)
+            elif what == 1:
+                f(r * 2.0, alpha, not nrm)
+            else:
+                f(r.ravel()[:1], 2.0 * a)
+        with ctx.guard(C_FRESH, subject):
+            v = f(r, alpha, nrm)
+            vf = f(r.copy(), alpha.copy() if isinstance(alpha, np.ndarray) else alpha, nrm)  # same argument form, fresh objects
+            _same_bits(ctx, subject, v, vf, step, op)
+            hist.record(v, [("r", r), ("alpha", alpha)], step, op)
+    ctx.case_note("history", done)
+
+
 def run_case(ctx, family, params):
     gc = _lib()
     rng = ctx.rng
@@ -436,6 +624,9 @@ def run_case(ctx, family, params):
             ctx.case_note("alpha", a)
             if v.shape == r.shape:
                 _scalars(ctx, kind, a, nrm, r, v, range(len(r)))
+            for name, form in _int_forms():
+                _call_single(kind, form, a, nrm, params["ia"] + 1)  # decided by the post-condition
+                ctx.count("input-form:" + name)
         _continuity(ctx, kind, a, nrm)
     elif family == "single-sweep":
         kind, nrm = params["kind"], params["normalized"]
@@ -463,6 +654,9 @@ def run_case(ctx, family, params):
                 ctx.count("input-form:" + name)
                 if comparable and v2.shape == v.shape:
                     ctx.check(C_SCALAR, subject, float(np.max(np.abs(v2 - v) / np.where(v != 0, np.abs(v), 1.0))), TOL_SCALAR, sig=name + "!=array")
+            for name, form in _int_forms(rng)[-2:] + [_int_forms()[int(rng.integers(0, 8))]]:
+                _call_single(kind, form, alpha, nrm, style + 2)
+                ctx.count("input-form:" + name)
             if v.shape == r.shape:
                 _scalars(ctx, kind, alpha, nrm, r, v, rng.choice(r.size, 8, replace=False))
         _continuity(ctx, kind, alpha, nrm)
@@ -489,20 +683,8 @@ def run_case(ctx, family, params):
             ks = 0
         box = float(10.0 ** rng.uniform(-1, 1.5))
 
-        def fset(k):
-            cen = rng.uniform(-box, box, (k, 3))
-            if k > 2 and rng.random() < 0.5:  # several functions on one centre (atomic core style)
-                cen[k // 2 :] = cen[0]
-            if k > 1 and rng.random() < 0.2:
-                cen[-1] = rng.uniform(-1e3, 1e3, 3)
-            co = rng.lognormal(0, 2, k) * rng.choice([-1.0, 1.0], k)
-            if k > 3 and rng.random() < 0.3:
-                co[int(rng.integers(0, k))] = 0.0
-            al = 10.0 ** rng.uniform(-4, 6, k)
-            return cen, co, al
-
-        cs, cos, als = fset(ks)
-        cp, cop, alp = fset(kp)
+        cs, cos, als = _fset(rng, ks, box)
+        cp, cop, alp = _fset(rng, kp, box)
         allc = np.concatenate([cs, cp]) if kp else cs
         npts = int(rng.integers(1, 120))
         pts = [rng.uniform(-1.5 * box, 1.5 * box, (npts, 3))]
@@ -517,9 +699,29 @@ def run_case(ctx, family, params):
         ctx.case_note("n_p", kp)
         ctx.case_note("n_points", len(pts))
         subject = f"coulomb_potential:{'s+p' if with_p else 's-only'}:{_nrm(nrm)}"
-        form = int(rng.integers(0, 4))
+        form = int(rng.integers(0, 7))
         if ks == 0 and form == 1:
             form = 0  # an empty nested list cannot carry the documented (0, 3) shape
+        ctx.count("potential-form:" + ["float64", "lists", "read-only", "keywords", "integer-dtype", "float32", "fortran/strided-views"][form])
+        if form == 4:  # integer-typed points (a lattice), some centres on lattice nodes; integer coefficients
+            ityp = [np.int64, np.int32, np.int16][int(rng.integers(0, 3))]
+            pts = rng.integers(-6, 7, (len(pts), 3)).astype(ityp)
+            if ks:
+                cs[: max(1, ks // 2)] = pts[rng.integers(0, len(pts), max(1, ks // 2))]
+            if rng.random() < 0.5 and ks:
+                cs = np.rint(cs).astype(np.int64)
+                cos = np.rint(cos).astype(np.int32)
+            if kp:
+                cp[0] = pts[0]
+        elif form == 5:
+            pts, cs, cos, als, cp, cop, alp = (x.astype(np.float32) for x in (pts, cs, cos, als, cp, cop, alp))
+            als, alp = np.maximum(als, np.float32(1e-4)), np.maximum(alp, np.float32(1e-4))
+        elif form == 6:
+            big = np.zeros((len(pts), 6))
+            big[:, ::2] = pts
+            pts = big[:, ::2]
+            cs, cp = np.asfortranarray(cs), np.asfortranarray(cp)
+            cos, als = np.repeat(cos, 2)[::2], np.repeat(als, 2)[::2]  # strided views
         with ctx.guard(C_ROUTE, subject):
             if form == 1:
                 a_ = [x.tolist() for x in (pts, cs, cos, als)]
@@ -546,6 +748,13 @@ def run_case(ctx, family, params):
                 sc = gc.coulomb_potential(pts, cs, np.abs(cos), als, cp, np.abs(cop), alp, normalized=nrm)
                 e = np.abs(np.asarray(v) - (v_s + v_p)) / np.where(sc > 0, sc, 1.0)
                 ctx.check(C_ROUTE, subject + ":V[s+p]=V[s]+V[p]", float(np.max(e)), TOL_ROUTE, sig="not-additive")
+            # the points x centres distance matrix (entries exactly on a centre included) through the single functions
+            allc = np.concatenate([np.asarray(cs, dtype=float).reshape(-1, 3), np.asarray(cp, dtype=float).reshape(-1, 3)])
+            dmat = np.stack([_dist(np.asarray(pts, dtype=float), c) for c in allc[:8]], axis=1)
+            a1 = float(np.asarray(als if ks else alp, dtype=float)[0])
+            for kind in cr.KINDS:
+                _call_single(kind, dmat, a1, nrm, form)
+                _call_single(kind, dmat.T, a1, nrm, form + 1)
     elif family == "atomic-core":
         sym = params["symbol"]
         el = sym if params["by"] == "symbol" else Z_OF[sym]
@@ -590,6 +799,7 @@ def run_case(ctx, family, params):
     elif family == "load-history":
         data = datafiles.gauss_params()
         syms = sorted(data)
+        handed_out = []
         for step in range(int(rng.integers(10, 40))):
             sym = syms[int(rng.integers(0, len(syms)))]
             el = [sym, sym.lower(), sym.upper(), Z_OF[sym], np.int64(Z_OF[sym])][int(rng.integers(0, 5))]
@@ -597,6 +807,10 @@ def run_case(ctx, family, params):
                 res = gc.load_atomic_gaussian_params(el)
                 ok, why = _params_ok(res, sym)
                 ctx.check(C_REPEAT, f"load_atomic_gaussian_params:{sym}", ok, sig=f"after-history:{why}", detail={"step": step, "element": repr(el)})
+                if ok:
+                    shared = any(np.shares_memory(x, y) for x in res for y in handed_out) or np.shares_memory(res[0], res[1])
+                    ctx.check(C_STABLE, "load_atomic_gaussian_params", not shared, sig="result-shares-memory-with-earlier-result", detail={"step": step, "element": repr(el)})
+                    handed_out = (handed_out + list(res))[-12:]
                 if ok and rng.random() < 0.6:  # the caller edits what it got; later loads must not change
                     mode = int(rng.integers(0, 3))
                     if mode == 0:
@@ -611,6 +825,11 @@ def run_case(ctx, family, params):
                     gc.load_atomic_gaussian_params(int(rng.integers(1, 119)))
                 except ValueError:
                     pass
+    elif family == "buffer-reuse":
+        if params["target"] == "potential":
+            _buffer_reuse_potential(ctx, gc, rng)
+        else:
+            _buffer_reuse_single(ctx, gc, rng, params["target"])
     elif family == "extreme-alpha-observation":
         # not decided (ASSUMPTIONS): the switch radius is fixed at 1e-12 whatever alpha
         for a in (1e10, 1e14, 1e18, 1e22):
